@@ -2000,6 +2000,13 @@ func (h *fsmHandler) established(ctx context.Context) (bgp.FSMState, *fsmStateRe
 	// reset the write deadline that was set in the connection establishment.
 	fsm.conn.SetWriteDeadline(time.Time{})
 
+	// a notification queued while no session was established (e.g. an
+	// operator's shutdown or reset request) must not tear down this one.
+	select {
+	case <-fsm.notification:
+	default:
+	}
+
 	ioCtx, cancel := context.WithCancel(ctx)
 	wg := &sync.WaitGroup{}
 	wg.Add(2)
